@@ -687,20 +687,27 @@ def undefine_unused_variables(source: str, preserve: Collection[str] = frozenset
         for node in core.filter_nodes(scope.body, (ast.Assign, ast.AnnAssign, ast.AugAssign)):
             class_body_blacklist.update(parsing.assignment_targets(node))
 
+    # Where _ is read, as in the gettext idiom, or is to be preserved, it is a name like any other,
+    # and nothing may be renamed to it
+    if "_" in preserve or any(core.walk(root, ast.Name(id="_", ctx=ast.Load))):
+        return
+
+    # A name that is declared global or nonlocal is bound for another scope as well
+    declared_names = {
+        name for node in core.walk(root, (ast.Global, ast.Nonlocal)) for name in node.names
+    }
+
     yielded = set()
     for name in _iter_unused_names(root):
         if (
             name.id not in preserve
             and name.id != "_"
+            and name.id not in declared_names
             and name not in class_body_blacklist
             and name not in yielded
         ):
             yield name, ast.Name(id="_")
             yielded.add(name)
-
-    # Where _ is read, as in the gettext idiom, or is to be preserved, it is a name like any other
-    if "_" in preserve or any(core.walk(root, ast.Name(id="_", ctx=ast.Load))):
-        return
 
     for node in core.walk(
         root,
